@@ -504,7 +504,43 @@ def fam_condfrac(tier, rng):
     return out
 
 
-FAMILIES = [fam_condfrac, fam_truth, fam_elseif, fam_forconv, fam_nest, fam_expr, fam_for, fam_select, fam_data, fam_err, fam_random]
+def fam_empty(tier, rng):
+    """blocks without statements: an empty block that is selected does nothing - in particular it does not fall into
+    the next block; loops with empty bodies still count and end"""
+    out = []
+    say = lambda b, t: [b.print(lit("$", t))]
+    for v in (0, 1, 2, 3):
+        for empties in ((1,), (2,), (1, 2), (3,), (1, 3), (2, 3), ()):
+            for els in ("else", "emptyelse", "none"):
+                # SELECT CASE with CASE 1 / CASE 2 / CASE 1 TO 3 blocks
+                b = B()
+                blocks = [([eqt(lit("I", 1))], [] if 1 in empties else say(b, "one")),
+                          ([eqt(lit("I", 2)), eqt(lit("I", 7))], [] if 2 in empties else say(b, "two")),
+                          ([rng_(1, 3)], [] if 3 in empties else say(b, "range"))]
+                e = say(b, "else") if els == "else" else ([] if els == "emptyelse" else None)
+                main = [b.let(var("X", "I"), lit("I", v)), b.select(var("X", "I"), blocks, e), b.print(lit("$", "end"))]
+                out.append({"fam": "empty:select/%s/%s" % ("".join(map(str, empties)) or "-", els), "prog": prog(main)})
+                # the same decision as IF / ELSEIF / ELSE
+                b = B()
+                x = var("X", "I")
+                arms = [(bin_("=", x, lit("I", 1)), [] if 1 in empties else say(b, "one")),
+                        (bin_("=", x, lit("I", 2)), [] if 2 in empties else say(b, "two")),
+                        (bin_("<=", x, lit("I", 3)), [] if 3 in empties else say(b, "range"))]
+                main = [b.let(x, lit("I", v)), b.if_(arms, e), b.print(lit("$", "end"))]
+                out.append({"fam": "empty:if/%s/%s" % ("".join(map(str, empties)) or "-", els), "prog": prog(main)})
+    for t in ("I", "S"):
+        b = B()
+        c = var("C", t)
+        main = [b.for_(c, lit("I", 1), lit("I", 3), None, [], hasstep=False), b.print(lit("$", "for"), c),
+                b.for_(c, lit("I", 3), lit("I", 1), None, [], hasstep=False), b.print(lit("$", "for0"), c),
+                b.while_(bin_("<", c, lit("I", 0)), []), b.print(lit("$", "while")),
+                b.do("bot", "until", bin_(">", c, lit("I", 0)), []), b.print(lit("$", "do")),
+                b.do("top", "while", bin_("<", c, lit("I", 0)), []), b.print(lit("$", "dotop"))]
+        out.append({"fam": "empty:loops/" + t, "prog": prog(main)})
+    return out
+
+
+FAMILIES = [fam_empty, fam_condfrac, fam_truth, fam_elseif, fam_forconv, fam_nest, fam_expr, fam_for, fam_select, fam_data, fam_err, fam_random]
 
 
 def cases(tier, seed):
